@@ -28,6 +28,11 @@ CLAIMS = {
   technique=TECH + "loop-free full-domain harnesses per entry point of bind.c, OS hooks and bitmap predicates as contract stubs over ghost facts",
   text="For all 16 binding entry points of bind.c, every flag word, every policy value, every hook table (each hook independently present or missing) and every relation between the user's set and the topology/complete sets: invalid flags, invalid policy, empty or not-included sets give -1/EINVAL before any OS hook is called; a hook only ever receives the user's set or, when that covers the topology set, the complete set, with flags and policy unchanged; PROCESS/THREAD dispatch and the ENOSYS fallback are exact; no applicable hook gives -1/ENOSYS; temporary nodesets are freed on every path; on a topology that is not this system every hook is a dummy, set-calls return 0 without OS call and get-calls return the complete set (policy MIXED). Loop-free code over a full symbolic domain: complete.",
   note="Trusted: the abstract set model (bind.model.h) stands for the bitmap functions verified under C03 and for hwloc_cpuset_to/from_nodeset (C09, not claimed). The live-system sentences (kernel round trip, load restores the binding) are OS behaviour and not decided."),
+ "C14": dict(
+  category="proof", design_ref="DESIGN.md section 3 (C14)",
+  technique=TECH + "loop-free full-domain harnesses for the best-of update steps; bounded harnesses (explicit small states, loops unwound) for get_best_target / get_best_initiator / register",
+  text="Proved (loop-free, all 2^64 values): hwloc__update_best_target / _initiator mark found, replace the best only by a strictly better value (HIGHER_FIRST / LOWER_FIRST) and leave it unchanged on ties and worse values. BOUNDED stand-ins (labelled so in the evidence, not counted as proved): hwloc_memattr_get_best_target returns a maximal/minimal value among all stored targets of an attribute without initiators, the first target on ties, ENOENT when there is none, EINVAL for flags or an unknown id (<= 4 targets); hwloc_memattr_get_best_initiator likewise over the stored initiators of the target plus its EINVAL clauses (<= 4 initiators); hwloc_memattr_register requires exactly one of HIGHER_FIRST/LOWER_FIRST, a non-NULL unused name (EINVAL/EBUSY otherwise, nothing registered) and appends with the next id (<= 2 attributes, 2-char names). Not decided: set_value/get_value store-lookup semantics, initiator matching by cpuset, convenience attributes, local NUMA node queries, default nodeset, dup/XML/restrict.",
+  note="Trusted: explicit states built by the harness (cache marked valid), cbmc's strcmp/strdup/realloc models."),
  "C15": dict(
   category="other", design_ref="DESIGN.md section 3 (C15)",
   technique=TECH + "bounded: plain harnesses on the real cpukinds.c with the bitmap dependency replaced by exact set operations on an 8-PU universe, loops unwound",
@@ -58,7 +63,6 @@ NOT_APPLICABLE = {
  "C09": "every helper walks first_child/next_sibling/parent links of an unbounded tree and its spec quantifies over all objects; only the bitmap primitives are covered (C03)",
  "C12": "deep copy and absence of sharing over the whole heap; no ghost heap / separation predicates in CBMC contracts",
  "C13": "distances add/get/restrict/dup interleavings over lists and object arrays: only argument-rejection prefixes would be in reach (not built)",
- "C14": "memory attribute store/lookup semantics over nested arrays and histories: only the best-of selection loops would be in reach (not built)",
  "C16": "diff build/apply/reverse over two unbounded trees; only the flag/EPERM prefix of diff_apply is covered (under C19)",
  "C17": "thread-safety: CBMC code contracts have no concurrency semantics",
  "C18": "snapshot discovery: file-system contents, component selection and fault sequences are outside any function contract",
